@@ -215,6 +215,13 @@ def check_poly(self, first, a, k, r, mm):
         # cannot be orthonormal to the stated tolerance for numerical reasons alone
         mm.note("poly-ill-conditioned-not-judged")
         return
+    if not raw:
+        zc = (x - x.mean()) / x.std()
+        sv = np.linalg.svd(np.column_stack([zc ** j for j in range(d + 1)]), compute_uv=False)
+        if sv[-1] <= 1e-7 * sv[0]:
+            # (few points, heavy tails, high degree: the powers 1..x^d are numerically dependent)
+            mm.note("poly-ill-conditioned-not-judged")
+            return
     if P.ndim != 2 or P.shape != (x.shape[0], d):
         _viol("poly-orthonormal", f"poly(degree={d}, raw={raw}) returned shape {P.shape}", "poly-shape")
         return
